@@ -62,7 +62,7 @@ def listeners : List Listener := [
 /-- Lua entry points anywhere in the package that are not protected calls (CallByParam without a literal Protect: true, Call, DoString, DoFile, Resume) -/
 def unprotectedCalls : List String := []
 
-/-- number of CallByParam call sites in the package -/
+/-- Lua entries of the package: each CallByParam call site once per listener whose paths go through it (helpers looked through), and once if no listener reaches it -/
 def callByParamSites : Nat := 5
 
 /-- (Lua name, slot of the Inbucket struct): `inbucket.<k1>.<k2> = f` stores f (CheckFunction(3)) in that slot — from the __index / __newindex functions -/
